@@ -19,6 +19,7 @@ import (
 	"go/constant"
 	"go/token"
 	"go/types"
+	"golang.org/x/tools/go/types/typeutil"
 
 	"golang.org/x/tools/go/packages"
 )
@@ -295,5 +296,49 @@ func normalizeVarDecls(pkg *packages.Package) {
 				return true
 			})
 		}
+	}
+}
+
+// normalizeGoCalls: `go x.store(ctx, key, up)` with a function of the same package is what
+// `go func() { x.store(ctx, key, up) }()` is for every rule here (the rules look at what the goroutine does, and the
+// splice-in of helpers shows it); the arguments are plain values at all such sites of this repository's size. The
+// statement is rewritten at load time so that "the goroutine literal" exists in both forms.
+func normalizeGoCalls(pkg *packages.Package) {
+	for _, file := range pkg.Syntax {
+		ast.Inspect(file, func(x ast.Node) bool {
+			g, ok := x.(*ast.GoStmt)
+			if !ok {
+				return true
+			}
+			if _, isLit := ast.Unparen(g.Call.Fun).(*ast.FuncLit); isLit {
+				return true
+			}
+			fn, _ := typeutil.Callee(pkg.TypesInfo, g.Call).(*types.Func)
+			if fn == nil || fn.Pkg() != pkg.Types {
+				return true
+			}
+			if sig, _ := fn.Type().(*types.Signature); sig != nil && sig.Recv() != nil {
+				if _, isIface := sig.Recv().Type().Underlying().(*types.Interface); isIface {
+					return true
+				}
+			}
+			// arguments must be evaluable later with the same result: identifiers, selectors, literals only
+			for _, a := range g.Call.Args {
+				switch ast.Unparen(a).(type) {
+				case *ast.Ident, *ast.SelectorExpr, *ast.BasicLit:
+				default:
+					return true
+				}
+			}
+			inner := g.Call
+			lit := &ast.FuncLit{
+				Type: &ast.FuncType{Func: inner.Pos(), Params: &ast.FieldList{}},
+				Body: &ast.BlockStmt{Lbrace: inner.Pos(), List: []ast.Stmt{&ast.ExprStmt{X: inner}}, Rbrace: inner.End()},
+			}
+			pkg.TypesInfo.Types[lit] = types.TypeAndValue{Type: types.NewSignatureType(nil, nil, nil, nil, nil, false)}
+			g.Call = &ast.CallExpr{Fun: lit, Lparen: inner.Pos(), Rparen: inner.End()}
+			pkg.TypesInfo.Types[g.Call] = types.TypeAndValue{Type: types.NewTuple()}
+			return false
+		})
 	}
 }
